@@ -148,10 +148,13 @@ class Ctx:
         self.undo = None  # C15 undo log
         self.deadline = 0
         self.maybe_ok = True  # undecided branch feasibility = explore the branch (see _check)
+        self._model_valid = False
+        self._final_model = None
 
     # ---- lifecycle
     def start(self):
         self.pos = 0
+        self._model_valid = False
         self.deferred = []
         self.int_memo = {}
         self.def_ids = set()
@@ -278,7 +281,10 @@ class Ctx:
         is preprocessed (simplify / propagate-values), split into variable-disjoint components and each component is
         given to a fresh solver (the conjunction is unsat iff some component is).  Before that, the abstraction pass
         drops the definitions of memoised prefix integers (sound for unsat)."""
+        if not assumptions and self._model_valid:
+            return True  # the model of the last satisfiable final query is still a model of the (unchanged) path
         self.flush_deferred()
+        self._model_valid = False
         asserts = list(self.solver.assertions())
         if self.def_ids and not expect_sat:
             # every T >= 0 is written as M*k + r (0 <= r < M, k >= 0), M = lcm of the constant moduli in the query:
@@ -291,6 +297,7 @@ class Ctx:
         if r == z3.unknown:
             raise Inconclusive("solver unknown on a final query")
         self._final_model = m
+        self._model_valid = r == z3.sat
         return r == z3.sat
 
     _prep = None
@@ -374,6 +381,7 @@ class Ctx:
 
     # ---- constraints
     def add(self, c):
+        self._model_valid = False
         if isinstance(c, bool):
             if not c:
                 raise PathAbort("assumed False")
@@ -387,6 +395,7 @@ class Ctx:
         self.light.push()
 
     def pop(self):
+        self._model_valid = False
         self.solver.pop()
         self.light.pop()
 
